@@ -200,6 +200,10 @@ def _check(path, cols, model, what, pending=False):
         raise _Bad('fresh-connection-blocked',
                    '%s: a fresh connection cannot read the table: %s'
                    % (what, ex))
+    except sqlite3.DatabaseError as ex:
+        raise _Bad('database-damaged',
+                   '%s: a fresh connection cannot read the table: %s: %s'
+                   % (what, type(ex).__name__, ex))
     if canon_rows(got) != canon_rows(model):
         raise _Bad('wrong-contents',
                    '%s: a fresh connection sees %r, expected %r'
